@@ -268,7 +268,37 @@ def session (j : Json) : Json :=
       (s', held', out ++ [Json.mkObj [("frames", Json.arr frames.toArray), ("subs", Json.arr subs.toArray)]])) (s0, [], [])
   Json.arr out.toArray
 
+/-- a recorded run of the real relay as a list of labels: run it through `step`; the answer is the
+    index of the first label that is not enabled (or null) and the transcripts of all connections -/
+def labelOf (m : Json) : Label :=
+  let c := natOf m "c"
+  match getStr m "t" with
+  | "connect" => .connect c
+  | "req" => .req c (natOf m "sub") (AD.getBool m "usable") (AD.getBool m "allowed") (natList m "answer")
+  | "close" => .close c (natOf m "sub")
+  | "event" => .event c (natOf m "ev") (AD.getBool m "accepted")
+  | "notify" => .notify (natOf m "ev") (natOf m "inst") (AD.getBool m "match")
+  | "query" => .queryStep (natOf m "inst")
+  | "send" => .send c
+  | _ => .disconnect c
+
+def trace (j : Json) : Json :=
+  let s0 : State := { subLimit := natOf j "limit", eoseOnCancel := AD.getBool j "eoc" }
+  let labels := (getArr j "labels").toList
+  let rec go (s : State) (i : Nat) : List Json → State × Option Nat
+    | [] => (s, none)
+    | m :: rest => match step s (labelOf m) with
+      | none => (s, some i)
+      | some s' => go s' (i + 1) rest
+  let (s, bad) := go s0 0 labels
+  let frames := s.connIds.map fun c => Json.arr #[n2j c, Json.arr ((s.transcript c).map frameJson).toArray]
+  Json.mkObj [("disabled_at", match bad with | some i => n2j i | none => Json.null),
+              ("transcripts", Json.arr frames.toArray),
+              ("registry", Json.arr (s.registry.map fun r => Json.arr #[n2j r.conn, n2j r.name, n2j r.inst]).toArray),
+              ("pending_tasks", n2j s.notifyTasks.length)]
+
 end PD
+
 
 namespace HD
 open NostrRelay.Handler
@@ -389,6 +419,7 @@ def step (st : St) (j : Json) : St × Json :=
     let (ok, n) := NostrRelay.Handler.eventLadder (some (HD.excOf (getStr j "exc")))
     (st, Json.arr #[match ok with | some b => Json.bool b | none => Json.null, Json.str (HD.nextStr n)])
   | "proto.session" => (st, PD.session j)
+  | "proto.trace" => (st, PD.trace j)
   | "live.match" =>
     let fs := SQLD.parseFilters j
     let e := KVD.parseEvent (j.getObjVal? "ev" |>.toOption.getD Json.null)
